@@ -148,6 +148,7 @@ class Pipeline:
         self.ops: list[tuple[str, Optional[ast.AST], ast.Call, bool]] = []  # (prim, operand, call node, conditional)
         self.problems: list[tuple[ast.AST, str]] = []
         self.early_returns: list[ast.Return] = []
+        self.scalars: dict[str, ast.AST] = {}
         self.rebind: Optional[ast.Assign] = None
         self.final_return_ok = False
         self._scan(fn.body, False)
@@ -161,6 +162,8 @@ class Pipeline:
                     self.problems.append((st, f"returns `{unparse(st.value) if st.value else None}` instead of the array"))
                 elif self.rebind is None:
                     self.early_returns.append(st)
+                elif conditional:
+                    self.problems.append((st, f"line {st.lineno}: a conditional `return {self.arr}` after the working array was created skips the remaining steps (e.g. the final clip)"))
                 else:
                     self.final_return_ok = True
                 continue
@@ -192,6 +195,10 @@ class Pipeline:
                 continue
             if isinstance(st, ast.Assign) and isinstance(st.targets[0], ast.Tuple):
                 continue  # vmin, vmax = self.get_limits(values)
+            if isinstance(st, ast.Assign) and len(st.targets) == 1 and isinstance(st.targets[0], ast.Name) and st.targets[0].id != self.arr \
+                    and self.arr not in {n.id for n in ast.walk(st.value) if isinstance(n, ast.Name)}:
+                self.scalars[st.targets[0].id] = st.value  # a scalar intermediate (span = vmax - vmin): no effect on the array, resolved when evaluated
+                continue
             if isinstance(st, ast.Expr) and isinstance(st.value, ast.Call):
                 c = st.value
                 cn = call_name(c) or ""
@@ -499,7 +506,7 @@ def run(check, repo: Repo) -> None:
             n_opt += len(ps_) + len(used_)
             bad_ = truthiness_uses(cls_, f_)
             check.decide(not bad_, "C20-R7", f"{cname_}.{f_.name}: optional numeric limits/parameters ({', '.join(sorted(ps_ | {'self.' + a for a in used_}))}) are tested with `is None`", "",
-                         mod.line(bad_[0][0]) if bad_ else mod.line(f_),
+                         mod.line(bad_[0][0]) if bad_ else mod.line(f_), definite=True,
                          fail_detail="; ".join(f"`{unparse(n_)[:60]}` uses {nm} as a truth value" for n_, nm in bad_[:3]) + ": a limit of exactly 0 is treated as 'not given' and replaced by "
                                      "a data extreme — the requested lower/upper limit is not sent to 0/1")
     check.floor("optional numeric limits examined", n_opt, 4)
@@ -537,7 +544,13 @@ def _run_pipeline(sym: Sym, p: Pipeline, x: Rat, fields: dict[str, Rat], local_n
         if operand is None:
             raise AnalysisError(f"primitive {prim} without operand")
         if local_names:
-            c = from_ast(operand, {k: val for k, val in fields.items()})
+            env_ = {k: val for k, val in fields.items()}
+            for nm_, ex_ in p.scalars.items():  # scalar intermediates, in definition order
+                try:
+                    env_[nm_] = from_ast(ex_, env_)
+                except NotArithmetic:
+                    pass
+            c = from_ast(operand, env_)
         else:
             c = _const_expr(sym, operand, fields)
         if f == "multiply":
